@@ -96,7 +96,14 @@ func (c *child) emit(kind string, s string) {
 }
 func (c *child) ev(s sx.S)  { c.emit("E", sx.String(s)) }
 func (c *child) obs(s sx.S) { c.emit("O", sx.String(s)) }
+// hangs counts time-outs in this child: each costs peer.Wait, so after a few
+// the remaining scripts are given up (the failures found are reported).
+var hangs int
+
 func (c *child) fail(key, what string) {
+	if strings.Contains(key, "hang") || strings.Contains(key, "no-return") || strings.Contains(key, "no-frame") {
+		hangs++
+	}
 	b, _ := json.Marshal(map[string]string{"key": key, "what": what})
 	c.emit("F", string(b))
 }
@@ -465,6 +472,11 @@ func childMain(file string, from int) {
 		runScript(out, s)
 		fmt.Fprintf(out, "D %d\n", s.I)
 		out.Flush()
+		if hangs >= 3 {
+			fmt.Fprintf(out, "Q %d\n", s.I)
+			out.Flush()
+			os.Exit(0)
+		}
 	}
 	os.Exit(0)
 }
@@ -642,6 +654,7 @@ func main() {
 			panic(err)
 		}
 		cur := -1
+		gaveUp := false
 		lines := make(chan string, 1024)
 		go func() {
 			sc := bufio.NewScanner(stdout)
@@ -671,6 +684,8 @@ func main() {
 					results[cur].done = true
 				case 'X':
 					results[cur].skipped = true
+				case 'Q':
+					gaveUp = true
 				case 'E':
 					results[cur].events = append(results[cur].events, body)
 				case 'O':
@@ -698,6 +713,9 @@ func main() {
 			continue
 		}
 		if err == nil {
+			if gaveUp {
+				r.Extra["gave_up_after_script"] = cur
+			}
 			next = n
 			continue
 		}
